@@ -9,3 +9,5 @@ From Agdb Require Export Records Storage StorageSpec.
    m_conc.ml / m_derive.ml use only the uniquely named entry points *)
 From Agdb Require Export ConcRead DeriveType.
 From Agdb Require Export Auth Paths.
+(* the storage-backed collections (C05): unique prefixes cp_ cv_ ce_ cl_ cm_ ct_ cg_ ga_ cr_ *)
+From Agdb Require Export Collections CollValues.
